@@ -111,3 +111,23 @@ Example ex_tree3_roundtrip : forall mw, parse_text (print_expr mw ex_tree3) = So
 Proof. intro mw. apply print_parse_roundtrip_concrete; apply ex_tree3_wf. Qed.
 Example ex_tree3_fixed : forall mw, print_expr mw (norm ex_tree3) = print_expr mw ex_tree3.
 Proof. intro mw. apply (print_fixed_point_concrete true ex_tree3 _ (proj1 ex_tree3_wf) (proj2 ex_tree3_wf) (ex_tree3_roundtrip true)). Qed.
+
+(* numeric literal texts: only a plain integer needs the space before "." *)
+Definition ex_tree4 : expr :=
+  EBin BSub (EBin BAdd (EDot (ENum (zs "1.5")) (zs "a")) (EBin BMul (EDot (ENum (zs "1e21")) (zs "b")) (EDot (ENum (zs "0xff")) (zs "c"))))
+            (EBin BPow (EDot (ENum (zs "2")) (zs "d")) (EIndex (ENum (zs "5e-7")) (ENum (zs "12")))).
+Example ex_tree4_print : print_expr true ex_tree4 = zs "1.5.a+1e21.b*0xff.c-2 .d**5e-7[12]".
+Proof. vm_compute. reflexivity. Qed.
+Example ex_tree4_wf : wf ex_tree4 /\ lexok ex_tree4.
+Proof.
+  unfold ex_tree4. simpl. unfold word_ok, word_shape, id_shape.
+  repeat split; try discriminate; try (vm_compute; reflexivity).
+  - right. left. exists (zs "1"), (zs "5"). repeat split; discriminate.
+  - right. right. left. exists (zs "1"), [], (zs "21"). repeat split; try discriminate. left. reflexivity.
+  - right. right. right. exists (zs "ff"). repeat split; discriminate.
+  - left. repeat split; discriminate.
+  - right. right. left. exists (zs "5"), [45], (zs "7"). repeat split; try discriminate. right. reflexivity.
+  - left. repeat split; discriminate.
+Qed.
+Example ex_tree4_roundtrip : forall mw, parse_text (print_expr mw ex_tree4) = Some (norm ex_tree4).
+Proof. intro mw. apply print_parse_roundtrip_concrete; apply ex_tree4_wf. Qed.
